@@ -111,8 +111,8 @@ theorem analyze_pv_head_legal {g : Game P M} (hg : GameOK g) (hb : EvalBounded g
 /-- non-vacuity: on the heap game the recording loop yields the two legal moves of a heap of 3, in
 generation order, although the hints are garbage (an illegal table move 7 and an illegal PV hint 0) -/
 example : (match iterate Toy.game Toy.cfg.opts Oracle.quiet 3
-      ⟨0, 3, some ⟨0#64, 0, 7, 0, 0⟩, [0]⟩ (record (M := Nat) (P := Nat)) [] (Eng.new Toy.game Toy.cfg) with
-    | .ok (.next l, _) => some l
+      ⟨0, 3, some ⟨0#64, 0, 7, 0, 0⟩, [0]⟩ (record (M := Nat) (P := Fin 32)) [] (Eng.new Toy.game Toy.cfg) with
+    | .ok (.next l, _) => some (l.map (fun (x : Nat × Fin 32) => (x.1, x.2.val)))
     | _ => none) = some [(1, 2), (2, 1)] := by decide
 
 end C04
